@@ -1847,6 +1847,7 @@ impl<'a> Run<'a> {
                         d,
                         lo: (avail - diff.max(0)).max(0) as u32,
                         hi: (avail + (-diff).max(0)) as u32,
+                        charged: (avail - diff).max(0) as u32,
                         new_blob: blob_bytes,
                         new_tsd: tsd,
                         new_sig: sig_str,
